@@ -569,6 +569,16 @@ fn oracle(s: &Session, log: &[Rec], status: &str, expected: &(Vec<u8>, Vec<u8>),
             break;
         }
     }
+    {
+        let mut seen: std::collections::BTreeSet<i64> = Default::default();
+        for m in &wire {
+            let q = m["seq"].as_i64().unwrap_or(-1);
+            if q < 1 || !seen.insert(q) {
+                out.oracle_fail("seq-duplicate-or-invalid", &format!("sequence number {q} of {} is repeated or not positive", canon(m)), replay(json!({"seq": q})));
+                break;
+            }
+        }
+    }
     // ---- clause 3 + 4: lifecycle events once and ordered, causal order, nothing after `terminated`
     // (a `launch` request opens a new lifecycle: the client asked for a new debuggee)
     out.oracle_evals += 1;
@@ -650,7 +660,7 @@ fn sched_line(log: &[Rec]) -> (String, String) {
     let mut next = 1i64;
     for (w, s) in &wire {
         while next <= *s {
-            match owner.get(&next) { Some(o) => steps.push(*o), None => return ("C12 sched x".into(), "bad-op".into()) }
+            match owner.get(&next) { Some(o) => steps.push(*o), None => return ("C12 sched -".into(), format!("unreconstructible:no-allocation-of-{next}")) }
             next += 1;
         }
         steps.push(*w);
